@@ -51,15 +51,13 @@ static PyObject* PyCHist_chist(PyObject* self, PyObject* args) {
     // indices
     binnum_old = -1;
 
+    // only the indices of data that are actually counted are stored
+    // in rev, so the slices partition exactly the counted data
+    offset = nbin+1;
+
     for (i=0; i<ndata; i++) {
 
-        offset = i+nbin+1;
         data_index = *(npy_int64 *) PyArray_GETPTR1(sort_pyobj, i);
-
-
-        if (dorev) {
-            rev[offset] = data_index;
-        }
 
         // data might not be contiguous, so use the
         // more general getter
@@ -68,6 +66,9 @@ static PyObject* PyCHist_chist(PyObject* self, PyObject* args) {
         binnum = (npy_int64) ( (thisdata-datamin)/binsize);
 
         if (binnum >= 0 && binnum < nbin) {
+            if (dorev) {
+                rev[offset] = data_index;
+            }
             // Should we upate the reverse indices?
             if (dorev && (binnum > binnum_old) ) {
                 tbin = binnum_old + 1;
@@ -79,13 +80,15 @@ static PyObject* PyCHist_chist(PyObject* self, PyObject* args) {
             // Update the histogram
             hist[binnum] = hist[binnum] + 1;
             binnum_old = binnum;
+            offset++;
         }
     }
 
+    // offset is now one past the last stored index
     tbin = binnum_old + 1;
     while (tbin <= nbin) {
         if (dorev) {
-            rev[tbin] = nrev;
+            rev[tbin] = offset;
         }
         tbin++;
     }
